@@ -58,6 +58,12 @@ def run(ctx) -> None:
     from . import c09
 
     ctx.reuse("C13.template", c09.list_overrides)
+    # the limit the commands are checked against is the worklist's own (every worklist class, the deprecated alias included),
+    # and the file carries every character of the selection string as one byte
+    from . import c16, c17
+
+    ctx.reuse("C13.step-guard", c16.override_set)
+    ctx.reuse("C13.template", c17.open_config)
     ctx.guard("C13.siblings", siblings)
     ctx.guard("C13.selection-array", selection_array)
     from .common import memo_rule
@@ -659,6 +665,10 @@ def asp_template(ctx, name: str) -> None:
             vol = vv.res.resolve(rtuple.elts[2], rat)
             two = isinstance(vol, ast.Call) and call_fname(vol) == "tolist" and isinstance(vol.func.value, ast.Call) and call_fname(vol.func.value) in ("round", "around")
             ctx.rep.check(two, rule, f"{v.qualname}/volume-rounding", "volumes are rounded to two decimals", f"returned volumes are `{show(vol)[:60]}`", where=v.where(rnode.ast))
+            if len(rtuple.elts) == 5:
+                lc = vv.res.resolve(rtuple.elts[3], rat)
+                ctx.rep.check(is_name(lc, "liquid_class"), rule, f"{v.qualname}/liquid-class", "the liquid class is handed on as given",
+                              f"the validator returns `{show(lc)[:50]}` as liquid class, not the argument itself: the command names another (truncated / altered) liquid class", where=v.where(rnode.ast))
 
 
 def wash_template(ctx) -> None:
